@@ -15,14 +15,16 @@ def ops_for(is_dict):
     if is_dict:
         muts = [("dsetitem", "k", 1), ("ddelitem", "a"), ("dpop", "a", None), ("dpopitem",), ("dclear",),
                 ("dupdate", {"k": 2}, {}), ("dsetdefault", "k", 3), ("dreset", {"r": 1})]
-        reads = [("dgetitem", "a"), ("dlen",), ("dcall",), ("dget", "a", None), ("diter",), ("deq", {"a": 1})]
+        reads = [("dgetitem", "a"), ("dlen",), ("dcall",), ("dget", "a", None), ("diter",), ("deq", {"a": 1}),
+                 ("diternext",), ("dkeys",), ("dvalues",), ("ditems",), ("dcontains", "a"), ("drepr",)]
         bad_value = [("dsetitem", "k", Other(1)), ("dsetitem", 5, 1), ("dupdate", {"k": Other(2)}, {}), ("dsetdefault", "zz", {3: 1}),
                      ("dreset", {"r": Other(1)}), ("dreset", [1])]
         missing = [("ddelitem", "nope"), ("dgetitem", "nope")]
     else:
         muts = [("lsetitem", 0, 1), ("ldelitem", 0), ("linsert", 0, 5), ("lappend", 6), ("lextend", [7]), ("liadd", [8]),
                 ("lremove", 1), ("lclear",), ("lpop", -1), ("lreverse",), ("lreset", [9])]
-        reads = [("lgetitem", 0), ("llen",), ("lcall",), ("liter",), ("lcontains", 1), ("lcount", 1), ("leq", [1])]
+        reads = [("lgetitem", 0), ("llen",), ("lcall",), ("liter",), ("lcontains", 1), ("lcount", 1), ("leq", [1]),
+                 ("liternext",), ("lreversed",), ("lindex", 1, 0, None), ("lrepr",), ("lcmp", "lt", [2])]
         bad_value = [("lappend", Other(1)), ("lsetitem", 0, {4: 1}), ("lextend", [Other(2)]), ("liadd", 5), ("linsert", 0, Other(3)),
                      ("lreset", [Other(1)]), ("lreset", {"a": 1})]
         missing = [("ldelitem", 99), ("lgetitem", 99), ("lremove", "absent"), ("lpop", 99), ("lsetitem", 99, 1)]
@@ -140,7 +142,7 @@ def unit_c10_faults(args):
     n = 0
     errors_seen = 0
     try:
-        cases = [(op, "none") for op in muts] + cases
+        cases = [(op, "none") for op in muts + reads] + cases
         import suites
         md = suites.model_driver(ns)
         S.install_event_hooks(ns)
